@@ -374,7 +374,63 @@ def c07_design(rng):
     return d
 
 
-def twin_design(rng):
+_SAME_NAME = None
+
+
+def _two(rng, xs):
+    i = rng.randint(0, len(xs) - 1)
+    j = rng.randint(0, len(xs) - 2)
+    if j >= i:
+        j += 1
+    return xs[i], xs[j]
+
+
+def _same_name_groups():
+    """[(class, [params...])] : parameter tuples of the c07 family whose live instances answer the same structureName() (computed on the
+    tree under test, once per process)"""
+    import py4hw, c07, io, contextlib
+    global _SAME_NAME, _C07_FAM
+    if _SAME_NAME is not None:
+        return _SAME_NAME
+    if _C07_FAM is None:
+        _C07_FAM = [(b, p) for b, p, _ in c07.param_families('quick', Rng(12345))]
+    by = {}
+    for blk, p in _C07_FAM:
+        try:
+            with contextlib.redirect_stdout(io.StringIO()):
+                inw, outw, ctor = c07.block_def(blk, p)
+                hw = py4hw.HWSystem()
+                o = ctor(hw, [hw.wire(f'i{k}', w) for k, w in enumerate(inw)], [hw.wire(f'o{k}', w) for k, w in enumerate(outw)])
+            if not hasattr(o, 'structureName'):
+                continue
+            by.setdefault((blk, o.structureName()), []).append(tuple(p))
+        except Exception:
+            continue
+    _SAME_NAME = [(k[0], sorted(set(v))) for k, v in sorted(by.items()) if len(set(v)) >= 2]
+    return _SAME_NAME
+
+
+def signature_collisions(limit=16):
+    """[(class, p, p2)]: pairs of parameter tuples that answer the SAME structureName() on the tree under test although their port
+    signatures (input / output widths, optional ports) DIFFER.  On the unchanged tree the list is empty; every pair is a design in which
+    the generator shares one module between instances that cannot both be bound to it (seeded/C01q, C03a)."""
+    import c07
+    out = []
+    for blk, ps in _same_name_groups():
+        sig = {}
+        for q in ps:
+            inw, outw, _ = c07.block_def(blk, q)
+            sig.setdefault((tuple(inw), tuple(outw)), q)
+        reps = list(sig.values())
+        for a_ in range(len(reps)):
+            for b_ in range(a_ + 1, len(reps)):
+                out.append((blk, reps[a_], reps[b_]))
+    # spread over the classes / names rather than the first group only
+    step = max(1, len(out) // limit)
+    return out[::step][:limit]
+
+
+def twin_design(rng, forced=None):
     """two lanes, each a small structural block holding ONE library arithmetic block of the same class and the same port widths but
     (where the class has them) different constructor OPTIONS -- logical vs arithmetic ShiftRight, Abs with / without the inverted flag,
     Add with / without carry ports: the generator may share one module between instances only when they are interchangeable"""
@@ -393,8 +449,28 @@ def twin_design(rng):
                 p2[3] = 1 - p2[3]
         else:
             p2[k] = 0 if p2[k] else 1
-    variants = [tuple(p), tuple(p2)]
     if rng.chance(1, 2):
+        # "neighbour" twins: another member of the same class's parameter family that differs in exactly ONE parameter (one operand or
+        # result width, one option): instances may share a module only when every port width and option agrees (seeded/C01q)
+        near = [q for b, q in _C07_FAM if b == blk and len(q) == len(p) and sum(1 for x, y in zip(p, q) if x != y) == 1]
+        if near:
+            p2 = list(rng.choice(near))
+    if rng.chance(1, 3):
+        # "same-name" twins: two parameter tuples of one class whose instances get the SAME structureName() on the tree under test --
+        # exactly the pairs for which the generator emits one shared module; sharing is sound only if they are interchangeable
+        groups = _same_name_groups()
+        if groups:
+            g = rng.choice(groups)
+            blk = g[0]
+            p, p2 = rng.sample2(g[1]) if hasattr(rng, 'sample2') else _two(rng, g[1])
+            p2 = list(p2)
+    flip = rng.chance(1, 2)
+    if forced is not None:
+        blk, p, p2 = forced[:3]
+        if len(forced) > 3:
+            flip = bool(forced[3])
+    variants = [tuple(p), tuple(p2)]
+    if flip:
         variants.reverse()
     hw = py4hw.HWSystem()
     Top = top_class()
